@@ -1,0 +1,15 @@
+//go:build verif
+
+package ansi
+
+// VerifHook, when set, is called at the parser's linearisation points with
+// the point's name. It may block: the verification harness uses it as a gate
+// to run the parser's goroutines in a chosen order. Only built with -tags
+// verif.
+var VerifHook func(point string)
+
+func verifHook(point string) {
+	if h := VerifHook; h != nil {
+		h(point)
+	}
+}
